@@ -42,7 +42,8 @@ def registry_for(reg, opdefs=(), mono=None):
             e = exts[d["ext"]] = ext.Extension(d["ext"], ext.Version(0, 1, 0))
         b = d["bspec"]
         bound = ext.ExplicitBound(W._bound(b["bound"])) if b["b"] == "Explicit" else ext.FromParamsBound(list(b["indices"]))
-        e.add_type_def(ext.TypeDef(d["id"], "", [tys.TypeTypeParam(tys.TypeBound.Any)] if b["b"] == "FromParams" else [], bound))
+        nparams = (max(b["indices"]) + 1 if b["indices"] else 1) if b["b"] == "FromParams" else 0
+        e.add_type_def(ext.TypeDef(d["id"], "", [tys.TypeTypeParam(tys.TypeBound.Any)] * nparams, bound))
     for en, on, desc in opdefs:
         e = exts.get(en)
         if e is None:
@@ -119,6 +120,7 @@ def run(ctx: Ctx) -> None:
             raise MachineryError(f"only {n[0]} pairs emitted")
         _hugr_level(ctx)
         _twin_extensions(ctx)
+        _containers(ctx)
         _registry_histories(ctx, wd, quick)
     finally:
         cleanup(wd)
@@ -301,6 +303,65 @@ def _twin_extensions(ctx: Ctx) -> None:
                 ctx.violation(dict(sig, what="idempotence"), case, "unchanged", "changed", clause="resolving twice = once")
         except Exception as e:  # noqa: BLE001
             ctx.violation(dict(sig, what=f"exception {type(e).__name__}"), case, "no exception", repr(e)[:300], clause="implementation raised")
+
+
+def _containers(ctx: Ctx) -> None:
+    """An opaque operation at every place of the hierarchy (function body, nested DFG, tail loop, both cases of a conditional, a case of a
+    conditional nested in a CFG block, a CFG block, a loop inside a case): resolution reaches every node of the HUGR."""
+    from hugr import ops, tys
+    from hugr.build.function import Module
+    from hugr.hugr import Hugr
+
+    def opq():
+        return ops.Custom("opn", tys.FunctionType([tys.Bool], [tys.Bool]), "d", "e1", [])
+    m = Module()
+    f = m.define_function("f", [tys.Bool])
+    (b,) = f.inputs()
+    places = ["function body", "nested dfg", "tail loop", "case 0", "case 1", "cfg block", "case inside a cfg block", "loop inside a case"]
+    x = f.add_op(opq(), b)
+    d = f.add_nested(x)
+    d.set_outputs(d.add_op(opq(), d.inputs()[0]))
+    tl = f.add_tail_loop([], [d.parent_node[0]])
+    y = tl.add_op(opq(), tl.inputs()[0])
+    tl.set_loop_outputs(y, y)
+    cond = f.add_conditional(tl.parent_node[0], tl.parent_node[0])
+    for i in (0, 1):
+        c = cond.add_case(i)
+        c.set_outputs(c.add_op(opq(), c.inputs()[0]))
+    cfg = f.add_cfg(cond.parent_node[0])
+    e = cfg.add_entry()
+    z = e.add_op(opq(), e.inputs()[0])
+    c2 = e.add_conditional(z, z)
+    for i in (0, 1):
+        c = c2.add_case(i)
+        if i == 0:
+            c.set_outputs(c.add_op(opq(), c.inputs()[0]))
+        else:
+            l2 = c.add_tail_loop([], [c.inputs()[0]])
+            w = l2.add_op(opq(), l2.inputs()[0])
+            l2.set_loop_outputs(w, w)
+            c.set_outputs(l2.parent_node[0])
+    e.set_single_succ_outputs(c2.parent_node[0])
+    cfg.branch_exit(e[0])
+    f.set_outputs(cfg.parent_node[0])
+    doc = m.hugr.to_json()
+    nops = sum(1 for nd in json.loads(doc)["nodes"] if nd.get("op") == "Extension")
+    if nops != len(places):
+        raise MachineryError(f"container HUGR has {nops} opaque ops, expected {len(places)}")
+    for with_op in (False, True):
+        ctx.evaluations += 1
+        ctx.nontriv(f"containers:{with_op}")
+        h0 = Hugr.load_json(doc)
+        reg = registry_for([], [("e1", "opn", "d")] if with_op else [])
+        try:
+            h0.resolve_extensions(reg)
+            kinds = [type(h0[n].op).__name__ for n in h0 if isinstance(h0[n].op, (ops.Custom, ops.ExtOp))]
+            want = ["ExtOp" if with_op else "Custom"] * len(places)
+            if kinds != want:
+                ctx.violation({"t": "containers", "what": "which operations were replaced"}, {"registry has e1.opn": with_op, "places": places}, want, kinds,
+                              clause="Custom replaced iff its definition is in the registry (every node of the HUGR)")
+        except Exception as e:  # noqa: BLE001
+            ctx.violation({"t": "containers", "what": f"exception {type(e).__name__}"}, {"registry has e1.opn": with_op}, "no exception", repr(e)[:300], clause="implementation raised")
 
 
 def replay(path: str) -> int:
